@@ -319,7 +319,17 @@ static void vf_fp_bytes(const void* p, size_t n) {
 }
 static void vf_fp_list(const mi_page_t* page, mi_block_t* head) {
   size_t guard = 0;
-  for (mi_block_t* b = head; b != NULL && guard < 70000; b = mi_block_next(page, b), guard++) vf_fp_word((uintptr_t)b);
+  /* raw decoding (no corruption report: the observer must not trigger mimalloc's error path); stop at a link that leaves the page */
+  for (mi_block_t* b = head; b != NULL && guard < 70000; guard++) {
+    vf_fp_word((uintptr_t)b);
+#if (MI_ENCODE_FREELIST || MI_PADDING)
+    mi_block_t* nx = mi_block_nextx(page, b, page->keys);
+#else
+    mi_block_t* nx = mi_block_nextx(page, b, NULL);
+#endif
+    if (nx != NULL && !mi_is_in_same_page(b, nx)) { vf_fp_word(0xBADBAD); break; }
+    b = nx;
+  }
   vf_fp_word(0xE0E0);
 }
 static void vf_fp_segment(const mi_segment_t* seg) {
